@@ -282,6 +282,18 @@ func execSS(p *Plan, run *core.Run) {
 				}
 			}
 		}
+		// the combiner keeps one share per identifier (Recover documents that it panics on
+		// duplicated identifiers; an altered identifier can collide with a genuine one)
+		dupID := false
+		for _, o := range got {
+			if o.ID.IsEqual(s.ID) {
+				dupID = true
+			}
+		}
+		if dupID {
+			run.Fault("transport:altered-identifier-collides-and-is-dropped")
+			continue
+		}
 		got = append(got, s)
 	}
 	run.Tick(len(got))
